@@ -13,7 +13,7 @@ def run(ctx):
     steps = 60 if quick else 120
     ctx.rule = ("%d generated edit histories x %d steps in the samplers' grammar (SMC placement with dict hop, data-point "
                 "move, prune-regraft, subtree extraction/re-attachment with carried outliers, relabel, copy, dict and "
-                "pickle round trips), n<=8 points, 1-3 samples, grids 3-21, four data kinds; rebuild_equal after every "
+                "pickle round trips), n<=8 points, 1-3 samples, grids 3-21, six data kinds incl. bit-identical twins and mixed scales 1e-3..1e6; rebuild (memoisation bypassed) compared after every "
                 "edit; distinct = (operation, resulting canonical tree)" % (shards * count, steps))
     ctx.assumptions = ["tolerance 1e-8 relative covers the rounding drift of repeated in-place add/remove",
                        "data inside the underflow window of C02 (moderate dynamic range)"]
